@@ -624,6 +624,42 @@ KNOB_SINKS = {"Parallel", "joblib.Parallel", "numba.set_num_threads", "set_num_t
 _PRINTERS = {"print", "warnings.warn", "logging.info", "logging.debug", "logging.warning", "sys.stdout.write", "sys.stderr.write"}
 
 
+def _arms_call_differently(fi, if_node):
+    """both arms of an if/else call the same module-level function (directly or through `f = delayed(g)`): -> (callee, difference text) when
+    the parameters they bind (or the expressions bound to them) differ, else None"""
+    funcs = fi.mod.funcs
+    alias = {}
+    for n in ast.walk(fi.node):
+        if isinstance(n, ast.Assign) and len(n.targets) == 1 and isinstance(n.targets[0], ast.Name) and isinstance(n.value, ast.Call) and \
+                dotted(n.value.func) in ("delayed", "joblib.delayed") and n.value.args and isinstance(n.value.args[0], ast.Name):
+            alias[n.targets[0].id] = n.value.args[0].id
+
+    def calls(stmts):
+        out = {}
+        for st in stmts:
+            for c in ast.walk(st):
+                if isinstance(c, ast.Call) and isinstance(c.func, ast.Name):
+                    g = alias.get(c.func.id, c.func.id)
+                    if g in funcs and not any(isinstance(a, ast.Starred) for a in c.args) and not any(k.arg is None for k in c.keywords):
+                        ps = funcs[g].params
+                        b = {}
+                        for i, a in enumerate(c.args):
+                            if i < len(ps):
+                                b[ps[i]] = unparse(a)
+                        for k in c.keywords:
+                            b[k.arg] = unparse(k.value)
+                        out.setdefault(g, []).append(b)
+        return out
+    a, b = calls(if_node.body), calls(if_node.orelse)
+    for g in sorted(set(a) & set(b)):
+        if len(a[g]) == 1 and len(b[g]) == 1 and a[g][0] != b[g][0]:
+            x, y = a[g][0], b[g][0]
+            only = sorted(set(x) ^ set(y))
+            diff = ["`%s` is passed in one arm only" % k for k in only] + ["`%s` is `%s` vs `%s`" % (k, x[k][:20], y[k][:20]) for k in sorted(set(x) & set(y)) if x[k] != y[k]]
+            return g, "; ".join(diff[:3])
+    return None
+
+
 def knob_rule(fi, param, rule="KNOB", forward_ok=True):
     """Non-interference of a knob (`n_jobs`, `verbose`): results are the same whatever its value.  Every read of the parameter (and of a
     local that merely copies it) must be one of
@@ -730,6 +766,11 @@ def knob_rule(fi, param, rule="KNOB", forward_ok=True):
                     ho, uo = escaping(par.orelse, end) if par.orelse else (set(), None)
                     if not hb and not ho and ub is None and uo is None:
                         verdict = "ok"       # whatever the arms compute stays inside them (messages, local bookkeeping)
+                    elif par.orelse and _arms_call_differently(fi, par) is not None:
+                        d_ = _arms_call_differently(fi, par)
+                        out.append(named(rule, fi, role, "the two implementations selected by `%s` call `%s` with different arguments: %s - what is computed "
+                                         "depends on `%s`" % (unparse(par.test)[:40], d_[0], d_[1], param), par))
+                        verdict = "reported"
                     elif not par.orelse and hb and ub is None:
                         out.append(named(rule, fi, role, "`if %s:` (no else) changes `%s`, which is read afterwards: the data the result is built from "
                                          "depends on `%s`" % (unparse(par.test)[:40], ", ".join(sorted(hb)[:3]), param), par))
@@ -769,12 +810,16 @@ def none_test_rule(fi, rule="NONE-TEST"):
             t = d.get("type", "").lower()
             if d.get("kind") in ("tensor", "int") or any(w in t for w in ("float", "array", "list", "tuple", "int")):
                 cand.append(k)
+        elif isinstance(v, ast.Constant) and isinstance(v.value, int) and not isinstance(v.value, bool) and dp.get(k, {}).get("kind") == "int":
+            cand.append(k)          # an index / count with an integer default: 0 is a value like any other
     if not cand:
         return []
     pm = parent_map(fi.node)
     out = []
     for p in cand:
         role = "optional parameter `%s` is recognised as absent by `is None` only (0 / empty / a tensor are values, not absence)" % p
+        if not (isinstance(defaults[p], ast.Constant) and defaults[p].value is None):
+            role = "integer parameter `%s` is never tested by truth value (0 is a value like any other)" % p
         stores = [n for n in ast.walk(fi.node) if isinstance(n, ast.Name) and n.id == p and isinstance(n.ctx, ast.Store)]
         bad = None
         n_tests = 0
